@@ -1036,7 +1036,7 @@ class C13(core.Check):
     def cases(self, rng, tier):
         for loop in self.loops():
             yield from self.small_scenarios(loop, rng, tier)
-            for _ in range(3000 if tier == "quick" else 60000):
+            for _ in range(2000 if tier == "quick" else 60000):
                 yield self.random_case(loop, rng)
 
     def search_cases(self, rng, tier):
